@@ -129,19 +129,37 @@ MatrixAt(j) ==
   IN  TItem("matrix", Doc(<<NameOnlyDomainType, <<"P", TypeDef(<<Member("f", ty)>>)>>, <<"Q", TypeDef(<<>>)>> >>, "P",
                           NameOnlyDomain, NObj(<< <<"f", v>> >>)))
 
+\* ---- member types whose width / size ALIASES a valid one under truncation to 8 / 16 / 32 / 64 bits ------------------
+\* (uint(8 + 2^k), int(256 + 2^k), bytes(32 + 2^k), T[(1 + 2^k)] with one element): none of them is the aliased type
+AliasTypes == <<
+  <<"uint264", NNum("1")>>, <<"uint65544", NNum("1")>>, <<"uint4294967304", NNum("1")>>, <<"uint18446744073709551624", NNum("1")>>,
+  <<"int512", NNum("-1")>>, <<"int65792", NNum("-1")>>, <<"int4294967552", NNum("-1")>>, <<"int18446744073709551872", NNum("-1")>>,
+  <<"uint4294967552", NStr("0xffffffffffffffffffffffffffffffffffffffffffffffffffffffffffffffff")>>,
+  <<"bytes288", NHexBytes(Rep(32, 7))>>, <<"bytes65568", NHexBytes(Rep(32, 7))>>, <<"bytes4294967328", NHexBytes(Rep(32, 7))>>,
+  <<"bytes18446744073709551648", NHexBytes(Rep(32, 7))>>, <<"bytes4294967297", NHexBytes(<<7>>)>>,
+  <<"uint8[257]", NArr(<<NNum("1")>>)>>, <<"uint8[65537]", NArr(<<NNum("1")>>)>>, <<"uint8[4294967297]", NArr(<<NNum("1")>>)>>,
+  <<"uint8[18446744073709551617]", NArr(<<NNum("1")>>)>>, <<"uint8[4294967296]", NArr(<<>>)>>, <<"uint8[18446744073709551616]", NArr(<<>>)>>,
+  <<"uint8[256]", NArr(<<>>)>>, <<"uint8[65536]", NArr(<<>>)>> >>
+NAlias == 2 * Len(AliasTypes)
+AliasAt(j) ==
+  LET a == AliasTypes[1 + ((j - 1) % Len(AliasTypes))]
+  IN  TItem("aliased_types", Wrap(IF j <= Len(AliasTypes) THEN 0 ELSE 1, a[1], a[2], a[2]))
+
 O1 == NInts
 O2 == O1 + NBytesN
 O3 == O2 + NFixed
 O4 == O3 + NNest
 O5 == O4 + Len(UndefDocs)
-Count == O5 + NMatrix
+O6 == O5 + NMatrix
+Count == O6 + NAlias
 ItemAt(g) ==
   IF g <= O1 THEN IntAt(g)
   ELSE IF g <= O2 THEN BytesNAt(g - O1)
   ELSE IF g <= O3 THEN FixedAt(g - O2)
   ELSE IF g <= O4 THEN NestAt(g - O3)
   ELSE IF g <= O5 THEN UndefAt(g - O4)
-  ELSE MatrixAt(g - O5)
+  ELSE IF g <= O6 THEN MatrixAt(g - O5)
+  ELSE AliasAt(g - O6)
 VARIABLE n
 INSTANCE GenBase
 =============================================================================
